@@ -112,9 +112,13 @@ def gen(a):
         chosen = mine[:a.per_file]
         cands += chosen
         print(f, "anchoring", anchored[f], "candidates", len(mine), "chosen", len(chosen))
+    old = json.load(open(f"{AM}/cands.json")) if a.append and os.path.exists(f"{AM}/cands.json") else []
+    have = {(c["file"], c["line"], c["new"]) for c in old}
+    cands = [c for c in cands if (c["file"], c["line"], c["new"]) not in have]
     for k, c in enumerate(cands):
-        c["id"] = f"a{k:04d}"
+        c["id"] = f"{a.prefix}{k:04d}"
         c["property"] = c["properties"][0]
+    cands = old + cands
     json.dump(cands, open(f"{AM}/cands.json", "w"), indent=0)
     print(len(cands), "candidates ->", f"{AM}/cands.json")
 
@@ -257,6 +261,8 @@ def main():
     ap.add_argument("--limit", type=int, default=0)
     ap.add_argument("--tier", default="quick")
     ap.add_argument("--redo", action="store_true")
+    ap.add_argument("--append", action="store_true")
+    ap.add_argument("--prefix", default="a")
     a = ap.parse_args()
     {"gen": gen, "test": test, "check": check, "report": report}[a.cmd](a)
 
